@@ -108,6 +108,7 @@ struct C08Opts
   int load_mode = 0;
   std::vector<uint32_t> chunks;
   bool via_file = false;
+  bool small_arena = false;  // the second compilation starts with 512-byte buffers
   int prefill = 0;  // via_file: 0 new file, 1 the path holds an older, longer compiled image, 2 unrelated longer content
   bool redefine = false;
   bool redefine_string = false;
@@ -190,11 +191,15 @@ static std::string check_case(const GSet& gs, const std::vector<bytes>& bufs, co
     if (!same)
       return "saving the same rules twice gives different bytes";
   }
-  // compiling the same sources again gives the same bytes
+  // compiling the same sources again gives the same bytes - also when the compiler's buffers start
+  // small and have to grow on the way (the image must not contain whatever the grown memory held)
   if (!o.redefine)
   {
     Rules R2;
+    if (o.small_arena)
+      ys_set_arena_initial_size(512);
     CompileResult c2 = compile_units(units, R2, gs.exts);
+    ys_set_arena_initial_size(262144);
     if (c2.errors || c2.rc)
       return "second compilation of the same sources failed";
     uint8_t* img2 = nullptr;
@@ -339,6 +344,7 @@ std::string run_case(Src& s, CaseInfo& ci)
   o.load_mode = (int) s.weighted({50, 30, 20});
   size_t nch = o.load_mode ? s.range(0, 5) : 0;
   for (size_t i = 0; i < nch; i++) o.chunks.push_back((uint32_t) (s.coin(50) ? s.range(1, 16) : s.range(1, 5000)));
+  o.small_arena = s.coin(30);
   o.via_file = s.coin(14);
   o.prefill = o.via_file ? (int) s.weighted({40, 35, 25}) : 0;
   o.redefine = s.coin(20);
